@@ -56,6 +56,11 @@ class Spec:
             if not ev["ms"]:
                 return False, "ValueError"
             return self.ok_sel(ev["ms"]) is not None, "RegRefError"
+        if e == "use" and ev.get("all"):
+            # All(op) | reg: the whole selection is tested first; an empty selection is accepted and does nothing
+            if not ev["ms"]:
+                return True, None
+            return self.ok_sel(ev["ms"]) is not None, "RegRefError"
         if e == "use":
             if len(ev["ms"]) not in (1, 2):
                 return False, "ValueError"
@@ -72,7 +77,11 @@ class Spec:
             first = len(self.rows)
             self.rows += [0] * ev["n"]
             return list(range(first, first + ev["n"]))
-        idx = self.ok_sel(ev["ms"])
+        idx = self.ok_sel(ev["ms"]) or []
+        if e == "use" and ev.get("all"):
+            for i in idx:
+                self.rows[i] += ev["k"]
+            return None
         if e == "del":
             for i in idx:
                 self.rows[i] = None
@@ -170,6 +179,20 @@ def gen_history(rng, backend, big=False, multi=True):
                     continue
                 k = min(kmax, rng.choice([1, 1, 1, 2, 2, 3]))
                 ev = {"e": "del", "ms": [_ref(rng, i) for i in rng.sample(live, k)]}
+            elif x < 0.60 and rng.random() < 0.12:
+                # All(Xgate) on several modes (now and then on none, or on a rejected selection)
+                z = rng.random()
+                if z < 0.12:
+                    ev = {"e": "use", "all": True, "ms": [], "k": 1, "deps": []}
+                elif z < 0.3:
+                    kind, refs = _bad_refs(rng, spec, rng.choice([2, 3]))
+                    ev = {"e": "use", "all": True, "ms": refs, "k": 1, "deps": [], "bad": kind}
+                else:
+                    sel = rng.sample(live, rng.randint(1, min(3, len(live))))
+                    k = rng.choice([-1, 1, 2])
+                    if fock and any(abs(spec.rows[i] + k) > MAXU for i in sel):
+                        k = 0
+                    ev = {"e": "use", "all": True, "ms": [_ref(rng, i) for i in sel], "k": k, "deps": []}
             elif x < 0.60:
                 if len(live) >= 2 and rng.random() < 0.35:
                     a, b = rng.sample(live, 2)
@@ -372,6 +395,27 @@ def run_real(sf, hist):
     out = []
     last_run = None
     pars = {}
+    op_cache = {}          # equal operations are ONE shared instance, within and across the programs of a history
+
+    def shared(key, ctor):
+        if key not in op_cache:
+            op_cache[key] = ctor()
+        return op_cache[key]
+
+    watched = []           # (program, snapshot of reg_refs) of every program that was run: must never change again
+    init_snap = [[int(r.ind), bool(r.active)] for r in prog.init_reg_refs.values()]
+    first = None           # (index of the first successful end, its program)
+
+    def alias_check():
+        bad = []
+        for j, (pw, snap) in enumerate(watched):
+            now = [[int(r.ind), bool(r.active)] for r in pw.reg_refs.values()]
+            if now != snap:
+                bad.append(f"program {j} (already run): reg_refs {snap} -> {now}")
+        now = [[int(r.ind), bool(r.active)] for r in prog.init_reg_refs.values()]
+        if now != init_snap:
+            bad.append(f"init_reg_refs of the program under construction: {init_snap} -> {now}")
+        return bad
     for ev in hist["events"]:
         e = ev["e"]
         if e in ("new", "del", "use", "meas"):
@@ -387,22 +431,27 @@ def run_real(sf, hist):
                             ops.Del | reg
                         elif e == "meas":
                             if len(reg) == 1:
-                                rr = ops.MeasureHomodyne(0.0, select=UNIT) | reg
+                                rr = shared("MH", lambda: ops.MeasureHomodyne(0.0, select=UNIT)) | reg
                                 pars[(id(prog), rr[0].ind)] = rr[0].par
                             else:
-                                ops.MeasureFock() | reg
+                                shared("MF", ops.MeasureFock) | reg
                         else:
                             par = UNIT * ev["k"]
                             for d in ev.get("deps", []):
                                 dp = pars.get((id(prog), d.get("o")))
                                 par = par * (4 * (dp if dp is not None else _mk_ref(prog, d).par))
-                            if len(reg) == 1:
-                                ops.Xgate(par) | reg
+                            plain = not ev.get("deps")
+                            if ev.get("all"):
+                                ops.All(shared(("X", ev["k"]), lambda: ops.Xgate(par))) | reg
+                            elif len(reg) == 1:
+                                (shared(("X", ev["k"]), lambda: ops.Xgate(par)) if plain else ops.Xgate(par)) | reg
+                            elif plain:
+                                shared("BS", lambda: ops.BSgate(math.pi / 2, 0.0)) | reg
                             else:
-                                ops.BSgate(math.pi / 2 if not ev.get("deps") else par / UNIT * math.pi / 2, 0.0) | reg
+                                ops.BSgate(par / UNIT * math.pi / 2, 0.0) | reg
             except Exception as ex:  # noqa: BLE001
                 r = type(ex).__name__
-            out.append(dict(r=r, **prog_obs(prog), **extra))
+            out.append(dict(r=r, alias=alias_check(), **prog_obs(prog), **extra))
         elif e == "end":
             ran_reg = [int(x.ind) for x in prog.register]
             try:
@@ -424,9 +473,27 @@ def run_real(sf, hist):
                 except Exception as ex:  # noqa: BLE001
                     sm.append({"err": type(ex).__name__, "msg": str(ex)[:200]})
             o["smodes"] = sm
+            # observing must not change anything: the same questions again
+            try:
+                o["again"] = dict(gm=[int(x) for x in eng.backend.get_modes()], state=state_obs(eng.backend.state(), fock))
+            except Exception as ex:  # noqa: BLE001
+                o["again"] = {"err": type(ex).__name__, "msg": str(ex)[:200]}
+            # measurement results are filed under the index of the measured mode
+            try:
+                sd = res.samples_dict or {}
+                o["samples"] = {int(k): [float(np.real(np.ravel(v[-1])[0])), len(v)] for k, v in sd.items()}
+                o["samples_shape"] = list(np.shape(res.samples))
+                o["skeys"] = sorted(int(k) for k in sd)
+            except Exception as ex:  # noqa: BLE001
+                o["samples"] = {"err": type(ex).__name__, "msg": str(ex)[:200]}
             last_run = prog
+            watched.append((prog, [[int(r.ind), bool(r.active)] for r in prog.reg_refs.values()]))
+            if first is None:
+                first = (len(out), prog)
             prog = sf.Program(prog)
+            init_snap = [[int(r.ind), bool(r.active)] for r in prog.init_reg_refs.values()]
             o.update(prog_obs(prog))
+            o["alias"] = alias_check()
             out.append(o)
         elif e == "reset":
             eng.reset()
@@ -439,6 +506,7 @@ def run_real(sf, hist):
             o["probe"] = [_probe(eng, pr) for pr in ev.get("probe", [])]
             o["smodes"] = []
             prog = sf.Program(ev["n"])
+            init_snap = [[int(r.ind), bool(r.active)] for r in prog.init_reg_refs.values()]
             o.update(prog_obs(prog))
             out.append(o)
         elif e == "resetkeep":
@@ -453,6 +521,7 @@ def run_real(sf, hist):
         elif e == "fresh":
             try:
                 prog = sf.Program(ev["n"])
+                init_snap = [[int(r.ind), bool(r.active)] for r in prog.init_reg_refs.values()]
                 out.append(dict(r="ok", **prog_obs(prog)))
             except Exception as ex:  # noqa: BLE001
                 out.append(dict(r=type(ex).__name__, **prog_obs(prog)))
@@ -467,4 +536,12 @@ def run_real(sf, hist):
                     o[key] = type(ex).__name__
             o["reg_after"] = [int(x.ind) for x in last_run.register]
             out.append(o)
+    # the first program of the history once more, on a new engine: same modes, same state
+    if first is not None and first[0] < len(out):
+        try:
+            eng2 = sf.Engine("fock" if fock else be, backend_options=opts)
+            res2 = eng2.run(first[1])
+            out[first[0]]["rerun"] = dict(gm=[int(x) for x in eng2.backend.get_modes()], state=state_obs(res2.state, fock))
+        except Exception as ex:  # noqa: BLE001
+            out[first[0]]["rerun"] = {"err": type(ex).__name__, "msg": str(ex)[:200]}
     return out
